@@ -43,7 +43,7 @@ def run(run):
     jobs += [('slice', L, hs, ht, True, dl) for L in range(0, 5 if quick else 8) for hs in (0, 1) for ht in (0, 1)]
     jobs += [('ast', k, (), 1, 1 if k == 'Comparison' else 2, dl, 20000 if quick else 10**7, True) for k in SA.COMPOUND]
     run_jobs(run, jobs, task, 'mirsym: parser on symbolic tokens, Index/Slice arms over the lexer range, slice kernel over all i32, symbolic ASTs')
-    res = K.run_harnesses(run, ['c07_slice_len0_to_3', 'c07_negative_index'] + ([] if quick else ['c07_slice_len4', 'c07_slice_len6']), timeout=600 if quick else 2400)
+    res = K.run_harnesses(run, ['c07_slice_len2', 'c07_slice_len3', 'c07_negative_index'] + ([] if quick else ['c07_slice_len4', 'c07_slice_len6']), timeout=420 if quick else 2400)
     for r in res:
         for c in r['failed']:
             if any(w in c['desc'] for w in ('overflow', 'index out of bounds', 'unwrap', 'unreachable', 'panic')):
@@ -65,8 +65,7 @@ def kani_slice_request(h, vals):
     try:
         if h.startswith('c07_slice') and vals:
             i = 0
-            if h == 'c07_slice_len0_to_3': ln = K.le(vals[0]); i = 1
-            else: ln = int(h.split('len')[1])
+            ln = int(h.split('len')[1])
             def opt(j):
                 tag = vals[j][0]
                 return (K.le(vals[j + 1], True), j + 2) if tag else (None, j + 1)
